@@ -655,7 +655,8 @@ def r26l(F):
     sites = [(b, t, "visited-test") for b, t in fn.calls() if callee(t).endswith("BTreeSet::contains")] + \
             [(b, t, "visited-insert") for b, t in fn.calls() if callee(t).endswith("BTreeSet::insert")] + \
             [(b, t, "load") for b, t in fn.calls() if callee(t).endswith("Environment::get_ops_for_path")]
-    need(len(sites) >= 3, "link_ops: visited set / load not found")
+    # `if !found.insert(x) { continue }` is test and insert in one call
+    need(any(w.startswith("visited") for b, t, w in sites) and any(w == "load" for b, t, w in sites), "link_ops: visited set / load not found")
     # every link is followed: the only reason to skip one is link_ops' own visited set.  Skipping what some shared cache already
     # holds (the op cache: "its imports were followed when it was loaded") is wrong when that earlier walk was abandoned on one of
     # the file's imports - the file then builds or fails depending on what was built before it
